@@ -7,10 +7,11 @@ import syscheck
 
 if __name__ == "__main__":
     setup_repo_path()
+    import gentie
     sys.exit(run_check(
         "C03", lean_modules=["Pamiq.Props.C03", "Pamiq.Props.C03Tick"],
         required_theorems=["Pamiq.Tick.stops_iff", "Pamiq.Tick.reads_all", "Pamiq.Tick.fault_ends_loop", "Pamiq.Tick.drain_in_order", "Pamiq.Proto.raise_goes_to_exception_path", "Pamiq.Proto.exc_only_sets_flag", "Pamiq.Proto.fault_sets_flag", "Pamiq.Proto.exc_flag_stable", "Pamiq.Proto.ctl_sees_fault", "Pamiq.Proto.ctl_fault_forces_shutdown", "Pamiq.Proto.teardown_phase_is_final", "Pamiq.Proto.teardown_only_in_finally"],
-        suites=syscheck.make_suites("C03", [('C03', 330, 8000), ('any', 50, 2000)],
+        suites=[gentie.suite_for("C03")] + syscheck.make_suites("C03", [('C03', 330, 8000), ('any', 50, 2000)],
             "random scenarios (0-2 trainers, child agent, 1-3 attempts, queue 1-3, web commands incl. "
             "pause/resume/save/status/invalid, save condition, faults at every callback kind, interrupts, "
             "timed mode) x seeded random schedules of the real launch(); each trace replayed through "
